@@ -6,7 +6,7 @@
 (* a flat genome of small integers (so TLC can enumerate small genomes exhaustively and     *)
 (* draw large ones with RandomSubset); every numeric slot is an exact rational taken from   *)
 (* decimal-exact tables, so the rendered MJCF carries exactly the specified numbers.        *)
-EXTENDS RatAlg, FiniteSets, TLC, Randomization
+EXTENDS RatAlg, FiniteSets, TLC, Prng
 
 GW == 16                      \* genes per link
 GeneVals == 0..11
@@ -94,7 +94,10 @@ DecodeLink(g, i) ==
 
 DecodeModel(g, n) == [links |-> [i \in 1..n |-> DecodeLink(g, i)]]
 
-Genomes(n) == [1..(n * GW) -> GeneVals]
+\* genomes are derived from integer seeds (see Prng.tla); SeedBase distinguishes runs
+CONSTANT SeedBase
+GenomesK(cnt, K) == {Gen(SeedBase + k, K) : k \in 1..cnt}
+Genomes(cnt, n) == GenomesK(cnt, n * GW)
 
 \* ---- structure helpers (used by every physics specification)
 NLinks(m) == Len(m.links)
